@@ -747,6 +747,11 @@ func init() {
 						}
 						code, calls := deliver(body, endAt, errAt, 16, chunkSeed+uint64(off))
 						out.Stats.Fired["stream_"+kind]++
+						// the parser itself must refuse it (not hand back an old size, some of the hashes and an empty checkpoint for a
+						// later stage to stumble over)
+						if po, pp, pc, perr := bastion.VerifParseBody(&faultyReader{data: body, chunks: NewRng(chunkSeed + uint64(off)), maxChunk: 16, endAt: endAt, errAt: errAt}); perr == nil {
+							return fail("partial_body_understood", "parser/"+kind, fmt.Sprintf("%d/%s/%d", mi, kind, off), fmt.Sprintf("a body cut (%s) at byte %d of %d, before the blank separator at %d, was parsed without error as old=%d, %d proof hashes, %d checkpoint bytes", kind, off, len(body), sep, po, len(pp), len(pc)))
+						}
 						if calls != 0 || code != 400 {
 							return fail("partial_body_understood", kind, fmt.Sprintf("%d/%s/%d", mi, kind, off), fmt.Sprintf("a body cut (%s) at byte %d of %d, before the blank separator at %d, was answered %d and reached the witness %d times", kind, off, len(body), sep, code, calls))
 						}
